@@ -377,8 +377,8 @@ func c16Exec(c *Ctx, ops []string) []string {
 					}
 					return "", err
 				})
-			case "tok.acreate", "tok.aassign4", "tok.aassign6", "tok.aeflo":
-				want := map[string]int{"tok.acreate": 12, "tok.aassign4": 4, "tok.aassign6": 4, "tok.aeflo": 13}[f[0]]
+			case "tok.acreate", "tok.aassign4", "tok.aassign6", "tok.aeflo", "tok.bassign4", "tok.bassign6":
+				want := map[string]int{"tok.acreate": 12, "tok.aassign4": 4, "tok.aassign6": 4, "tok.aeflo": 13, "tok.bassign4": 4, "tok.bassign6": 4}[f[0]]
 				if len(f) != want {
 					return "bad-op"
 				}
@@ -586,33 +586,35 @@ func c16Run(c *Ctx) {
 		c.Count("flow-history")
 		add(ops, fails > 0)
 	}
-	// (d) the same fail / retry histories through the real OpenAPI wrappers over a scripted HTTP transport
+	// (d) the same fail / retry histories through the real OpenAPI wrappers over a scripted HTTP transport: each case has 2-4
+	// request identities (wrapper + parameters) that are issued again and again, so that most failures are followed by a retry
 	for i := 0; i < c.Scale(150, 2500); i++ {
 		ops := []string{"tok.new 500", "tok.hreset"}
-		var ps []*c16Params
-		for k := 0; k < 1+r.Intn(3); k++ {
-			ps = append(ps, genParams(r))
+		type ident struct {
+			head  string // op without the fail token
+			modes []string
+		}
+		var ids []ident
+		for k := 0; k < 2+r.Intn(3); k++ {
+			switch x := r.Intn(100); {
+			case x < 35:
+				ids = append(ids, ident{"tok.acreate " + genParams(r).line(), []string{"1", "3"}})
+			case x < 55:
+				l := genParams(r).line()
+				ids = append(ids, ident{fmt.Sprintf("tok.aeflo %s %s %s", l[:strings.LastIndex(l, " ")], hexStr("i-1"), hexStr("z1")), []string{"1", "2"}})
+			default:
+				ids = append(ids, ident{fmt.Sprintf("tok.%sassign%d %s %d", Pick(r, []string{"a", "b"}), Pick(r, []int{4, 6}), hexStr(Pick(r, []string{"eni-1", "eni-2"})), 1+r.Intn(2)), []string{"1", "3"}})
+			}
 		}
 		fails := 0
 		for k := 0; k < 3+r.Intn(c.Scale(10, 20)); k++ {
+			id := Pick(r, ids)
 			fail := "0"
 			if r.Chance(50) {
-				fail = "1"
+				fail = Pick(r, id.modes)
 				fails++
 			}
-			switch x := r.Intn(100); {
-			case x < 45:
-				ops = append(ops, "tok.acreate "+Pick(r, ps).line()+" "+fail)
-			case x < 70:
-				p := Pick(r, ps)
-				if fail == "1" && r.Chance(50) {
-					fail = "2" // HTTP 200 with a business error code
-				}
-				l := p.line()
-				ops = append(ops, fmt.Sprintf("tok.aeflo %s %s %s %s", l[:strings.LastIndex(l, " ")], hexStr("i-1"), hexStr("z1"), fail))
-			default:
-				ops = append(ops, fmt.Sprintf("tok.aassign%d %s %d %s", Pick(r, []int{4, 6}), hexStr(Pick(r, []string{"eni-1", "eni-2"})), 1+r.Intn(2), fail))
-			}
+			ops = append(ops, id.head+" "+fail)
 		}
 		c.Count("api-history")
 		add(ops, fails > 0)
